@@ -1,0 +1,22 @@
+//go:build verif
+
+package factory
+
+import (
+	"github.com/go-kid/ioc/container"
+)
+
+// NewWithRegistries builds the default factory around caller-supplied registries.
+// It exists only in builds with the `verif` tag so that a verification harness can wrap the
+// real definition registry / singleton component registry with tracing or order-permuting
+// decorators. Behaviour is otherwise identical to Default().
+func NewWithRegistries(def container.DefinitionRegistry, scr container.SingletonComponentRegistry) container.Factory {
+	f := Default().(*defaultFactory)
+	if def != nil {
+		f.definitionRegistry = def
+	}
+	if scr != nil {
+		f.singletonComponentRegistry = scr
+	}
+	return f
+}
